@@ -221,10 +221,10 @@ def loopBody (st : StoreSt) (labels : List Nat) (mp : Option Nat) (ls : Loop φ)
   match locToIloc labels t.1 with                                   -- idx = index._loc_to_iloc(label)
   | .error e => .error (e, ls)
   | .ok idx =>
-    let ls := if mp.isSome then { ls with lru := touch ls.lru t.1 } else ls     -- update LRU position
-    match ls.fetch st t.2 with
+    match ls.fetch st t.2 with                                      -- a failing read leaves the LRU untouched
     | .error e => .error e
     | .ok (frame, ls) =>
+      let ls := if mp.isSome then { ls with lru := touch ls.lru t.1 } else ls   -- update LRU position (after the read)
       match ls.loaded[idx]? with
       | none => .error (.lookup, ls)
       | some isLoaded =>
@@ -390,8 +390,30 @@ def BusSt.run (store : StoreFn φ) (pinnedReader : Bool) (st : StoreSt) :
     | .error e => .error e
     | .ok s' => BusSt.run store pinnedReader st s' ops
 
+/-- an event of a full history: an operation on the Bus (it may raise), something happening to the file behind
+    the Store object's back, or a write through the Store object -/
+inductive HistEv
+  | op (o : BusOp)
+  | file (e : FileEvent)
+  | storeWrite (now : Nat)
+deriving Repr
+
+/-- the state a (possibly failing) operation leaves the Bus in -/
+def BusSt.stepState (store : StoreFn φ) (pinnedReader : Bool) (st : StoreSt) (s : BusSt φ) (o : BusOp) : BusSt φ :=
+  match s.step store pinnedReader st o with
+  | .ok s' => s'
+  | .error (_, s') => s'
+
+/-- a full history: operations continue after exceptions (with the state the object was left in), file events
+    and store writes change the store state in between -/
+def BusSt.runAll (store : StoreFn φ) (pinnedReader : Bool) : StoreSt → BusSt φ → List HistEv → StoreSt × BusSt φ
+  | st, s, [] => (st, s)
+  | st, s, .op o :: evs => BusSt.runAll store pinnedReader st (s.stepState store pinnedReader st o) evs
+  | st, s, .file e :: evs => BusSt.runAll store pinnedReader (st.event e) s evs
+  | st, s, .storeWrite now :: evs => BusSt.runAll store pinnedReader (st.write now) s evs
+
 /-- Every Bus that can come into existence from a store: the Bus opened on the store, a Bus after any
-    successful operation (whatever happened to the file before: `st` is arbitrary at every step), the Bus
+    successful OR FAILED operation (whatever happened to the file before: `st` is arbitrary at every step), the Bus
     returned by a multi-label selection, and any `_derive` of a duplicate-free selection of positions
     (`drop`, `reindex` to existing labels, `sort_index`, `head`, `tail`). -/
 inductive Reach (store : StoreFn φ) (pinnedReader : Bool) : BusSt φ → Prop
@@ -399,11 +421,65 @@ inductive Reach (store : StoreFn φ) (pinnedReader : Bool) : BusSt φ → Prop
       labels.Nodup → BusSt.fromStore labels mp = .ok s → Reach store pinnedReader s
   | step (st : StoreSt) (s s' : BusSt φ) (op : BusOp) :
       Reach store pinnedReader s → s.step store pinnedReader st op = .ok s' → Reach store pinnedReader s'
+  | failed (st : StoreSt) (s s' : BusSt φ) (op : BusOp) (e : Err) :
+      Reach store pinnedReader s → s.step store pinnedReader st op = .error (e, s') → Reach store pinnedReader s'
   | selected (st : StoreSt) (s s' d : BusSt φ) (k : Key) :
       Reach store pinnedReader s → s.extractIloc store pinnedReader st k = .ok (s', .bus d) → Reach store pinnedReader d
   | derived (s d : BusSt φ) (ps : List Nat) :
       Reach store pinnedReader s → ps.Nodup → (∀ p ∈ ps, p < s.labels.length) → s.derive ps = .ok d →
       Reach store pinnedReader d
+
+/-! ## Historical definitions (pinned-tree behaviour, repaired in /repo f8d3a4f)
+
+The pinned tree recorded the access in `_last_accessed` BEFORE `next(store_reader)`: a read failing with
+StoreFileMutation left an unloaded label in the LRU.  Kept only for
+`SF.C17.bus_bound_after_failed_read_pinned_counterexample`. -/
+
+/-- HISTORICAL loop body: LRU touch before the store read -/
+def loopBodyPinned (st : StoreSt) (labels : List Nat) (mp : Option Nat) (ls : Loop φ) (t : Nat × Option φ) :
+    Except (Err × Loop φ) (Loop φ) :=
+  match locToIloc labels t.1 with
+  | .error e => .error (e, ls)
+  | .ok idx =>
+    let ls := if mp.isSome then { ls with lru := touch ls.lru t.1 } else ls     -- update LRU position (before the read)
+    match ls.fetch st t.2 with
+    | .error e => .error e
+    | .ok (frame, ls) =>
+      match ls.loaded[idx]? with
+      | none => .error (.lookup, ls)
+      | some isLoaded =>
+        let ls := ls.mark mp idx frame isLoaded
+        match mp with
+        | none => .ok ls
+        | some k => if ls.count > k then ls.evict labels else .ok ls
+
+/-- HISTORICAL: the load loop with `loopBodyPinned` -/
+def loopRunPinned (st : StoreSt) (labels : List Nat) (mp : Option Nat) :
+    Loop φ → List (Nat × Option φ) → Except (Err × Loop φ) (Loop φ)
+  | ls, [] => .ok ls
+  | ls, t :: ts =>
+    match loopBodyPinned st labels mp ls t with
+    | .error e => .error e
+    | .ok ls' => loopRunPinned st labels mp ls' ts
+
+/-- HISTORICAL: `_update_series_cache_iloc` of the pinned tree (element / multi reader as in `updateCache`) -/
+def BusSt.updateCachePinned (store : StoreFn φ) (pinnedReader : Bool) (st : StoreSt) (s : BusSt φ)
+    (ps : List Nat) (isElement : Bool) : Except (Err × BusSt φ) (BusSt φ) :=
+  let mpActive := s.maxPersist.isSome
+  let load := if s.loadedAll then false else !(ps.all fun p => s.loaded[p]? == some true)
+  if !load && !mpActive then .ok s
+  else match targetsOf s ps with
+  | none => .error (.lookup, s)
+  | some targets =>
+    if !load then .ok { s with lru := (targets.map (·.1)).foldl touch s.lru }
+    else
+      let reader : List φ :=
+        if isElement then targets.map fun t => store (some t.1) t.1
+        else storeReaderFrames store pinnedReader s.maxPersist ((targets.filter fun t => t.2.isNone).map (·.1))
+      let ls0 : Loop φ := { array := s.cache, loaded := s.loaded, lru := s.lru, count := s.loaded.count true, reader := reader }
+      match loopRunPinned st s.labels s.maxPersist ls0 targets with
+      | .error (e, ls) => .error (e, { s with loaded := ls.loaded, lru := ls.lru })
+      | .ok ls => .ok { s with cache := ls.array, loaded := ls.loaded, lru := ls.lru, loadedAll := ls.loaded.all id }
 
 /-! ## Spec side -/
 
